@@ -553,7 +553,8 @@ impl<C: CrcCalculator> Encapsulator<C> {
             encap_status = EncapStatus::CompletedPkt(buffer_offset as u16);
         }
         // if a fragment of the rest fits in the buffer
-        else if buffer_len > FIXED_HEADER_LEN + FRAG_ID_LEN {
+        // (when only the CRC remains, an intermediate packet would carry no payload)
+        else if buffer_len > FIXED_HEADER_LEN + FRAG_ID_LEN && pdu_len_remaining > 0 {
             let gse_len: usize;
 
             // limited by the buffer and by the 12 bits GSE length field
@@ -969,7 +970,8 @@ pub fn encap_frag_preview(
         pkt_len = buffer_offset as u16;
     }
     // if a fragment of the rest fits in the buffer
-    else if buffer_len > FIXED_HEADER_LEN + FRAG_ID_LEN {
+    // (when only the CRC remains, an intermediate packet would carry no payload)
+    else if buffer_len > FIXED_HEADER_LEN + FRAG_ID_LEN && pdu_len_remaining > 0 {
         let gse_len: usize;
 
         // limited by the buffer and by the 12 bits GSE length field
